@@ -15,6 +15,8 @@ if rc not in (0, 1):
     sys.exit(rc)
 # bounded stand-ins: (directory, argv for quick, argv for thorough, what it stands in for)
 BOUNDED = {
+ 'C07': [('bounded/strings', ['-n', '3'], ['-n', '4'],
+          'substring / normalize-space / translate / string-length through the real Exec on every string up to N characters over an alphabet with ASCII, XML and non-XML white space, 2-, 3- and 4-byte and combining characters, and every position/length from a grid with fractions, negatives, NaN and infinities, compared with an independent character-level oracle; results checked for UTF-8 validity')],
  'C10': [('bounded/store', ['-n', '7'], ['-n', '8'],
           'event loop of store.createInMemory: every Parser-contract-conforming event stream up to N events through the real store, compared with an independently built tree (nesting, positions, parent/list consistency, owned namespace nodes), plus one flat stream of 10^6 elements')],
 }
